@@ -45,7 +45,7 @@ DECIDING = [
     "expression_from_sympy", "translate_expression", "translate_tuple", "natural_key", "natural_key_revlex",
     "roundtrip-value", "supported-not-refused", "unsupported-refused", "tuple-roundtrip", "key-sort",
 ]
-BUDGET = {"quick": (4, 45, 1200), "thorough": (16, 200, 10000)}
+BUDGET = {"quick": (4, 35, 800), "thorough": (16, 200, 10000)}
 MIN_EVALS = {"quick": 400, "thorough": 2000}
 CASE_TIMEOUT = {"quick": 10, "thorough": 20}
 
@@ -674,6 +674,13 @@ def rand_exponent(rng, depth, evaluate, symbols):
     return rand_tree(rng, min(depth, 1), evaluate, symbols)
 
 
+def _magnitude(S, x):
+    try:
+        return abs(complex(S.N(x, 8)))
+    except Exception:
+        return float("inf")
+
+
 def rand_tree(rng, depth, evaluate=True, symbols=True):
     import sympy as S
 
@@ -698,21 +705,25 @@ def rand_tree(rng, depth, evaluate=True, symbols=True):
         inv = S.Pow(b, S.Integer(-1), **ev)
         return S.Mul(a, inv, **ev) if rng.random() < 0.5 else S.Mul(inv, a, **ev)
     if op == "pow":
-        return S.Pow(sub(), rand_exponent(rng, depth - 1, evaluate, symbols), **ev)
+        base = sub()
+        x = rand_exponent(rng, depth - 1, evaluate, symbols)
+        if getattr(x, "is_number", False):
+            # numeric towers make sympy (eager Integer/Rational powers) and Python's int pow run for
+            # minutes: keep numeric exponents small, and tiny when the base is numeric as well
+            limit = 4 if getattr(base, "is_number", False) else 40
+            if _magnitude(S, x) > limit:
+                x = rng.choice([S.Integer(2), S.Integer(3), S.Integer(-2), S.Rational(1, 2), S.Float(-0.5)])
+        return S.Pow(base, x, **ev)
     if op == "sqrt":
         return S.sqrt(sub()) if evaluate else S.Pow(sub(), S.Rational(1, 2), evaluate=False)
     if op == "neg":
         return S.Mul(S.Integer(-1), sub(), **ev)
     f = rng.choice([S.sin, S.cos, S.tan, S.exp])
     arg = sub()
-    if f is not S.exp and getattr(arg, "is_number", False):
-        # sympy evaluates trig functions of floats eagerly; a huge argument makes the
-        # argument reduction run for minutes (environment, not the library under test)
-        try:
-            big = abs(complex(S.N(arg, 8))) > 1e6
-        except Exception:
-            big = True
-        if big:
+    if getattr(arg, "is_number", False):
+        # sympy evaluates functions of floats eagerly; a huge argument makes the argument
+        # reduction / exponent arithmetic run for minutes (environment, not the library under test)
+        if _magnitude(S, arg) > (1e3 if f is S.exp else 1e6):
             arg = S.Float(rng.uniform(-5, 5))
     return f(arg, **ev)
 
@@ -804,7 +815,10 @@ def unsupported_atoms(rng, S, a, b):
         ("undefined:sqrt", lambda: S.Function("sqrt")(a)), ("undefined:div", lambda: S.Function("div")(a, b)),
     ]
     label, mk = rng.choice(opts)
-    return label, mk()
+    try:
+        return label, mk()
+    except Exception:  # sympy refuses this operand (e.g. Max of a non-real number)
+        return "log", S.log(S.Symbol("x"))
 
 
 # ============================================================================ cases
